@@ -40,9 +40,24 @@ def Out.show : Out → String
   | .dropped => "dropped"
   | .panic s => "panic " ++ siteFn s
 
+/-- what a completion / expiry path of the session layer does when it is through with a request
+(read off the regenerated clean-up facts, `Gen.PanicSites.cleanup`): does it delete the session's
+buffer (`sessionMap`), its registration (`sessionReq`), and does it close the reply channel exactly
+once, with no send after the close -/
+structure Clean where
+  delBuf : Bool
+  delReq : Bool
+  closeOnce : Bool
+  deriving DecidableEq, Repr
+
+def Clean.all : Clean := ⟨true, true, true⟩
+
 /-- One Boolean per guard of the code that stands between peer input and a panic site. -/
 structure Cfg where
-  -- share/dkg/pedersen
+  -- share/dkg/pedersen: clean-up of the three paths that finish a request of the session layer
+  peerClean    : Clean    -- handlePeerMsg: the batch is complete
+  reqClean     : Clean    -- handleRequest: the batch was complete already
+  expClean     : Clean    -- pdkg.Loop expiry sweep: the session context is done
   xpubCastSelf : Bool     -- exchangePub: `resp.(*PublicKey)` comma-ok (own key)
   xpubCastPeer : Bool     -- exchangePub: `resp.(*PublicKey)` comma-ok (peer keys)
   xpubIdx      : Bool     -- exchangePub (e9f475e): nil key / Index ≥ n rejected before `groupIds[pubkey.Index]`
@@ -88,7 +103,7 @@ structure Cfg where
   deriving DecidableEq, Repr
 
 def Cfg.all : Cfg :=
-  { xpubCastSelf := true, xpubCastPeer := true, xpubIdx := true, gdkgGuard := true, dealsDkgNil := true, dealsCast := true,
+  { peerClean := Clean.all, reqClean := Clean.all, expClean := Clean.all, xpubCastSelf := true, xpubCastPeer := true, xpubIdx := true, gdkgGuard := true, dealsDkgNil := true, dealsCast := true,
     respsDkgNil := true, respsCast := true, findPubDkg := true, respNil := true, respVerOk := true, pubKeyLen := true, peerRespNil := true,
     encNil := true, nonceLen := true, secShareNil := true, shareVNil := true, findPubVss := true, aggNil := true,
     toBigLen := true, qloopOk := true, qloopCast := true, rsNil := true, rsMake := true, groupInfoIds := true,
@@ -143,6 +158,15 @@ def fire (s : Sess) (sid : String) (r : Req) (k : Nat) (site : String) : Sess ×
   if r.chan ∈ s.closed then ({ s with alive := false }, .panic site)
   else ({ s with buf := aerase sid s.buf, req := aerase sid s.req, closed := r.chan :: s.closed }, .ok s!"fire {k}")
 
+/-- `fire` with the clean-up the code actually performs on that path. A registration that is left in
+the map keeps its (now closed) reply channel: the next completion or sweep of that session sends on /
+closes a closed channel. -/
+def fireC (c : Clean) (s : Sess) (sid : String) (r : Req) (k : Nat) (site : String) : Sess × Out :=
+  if r.chan ∈ s.closed || !c.closeOnce then ({ s with alive := false }, .panic site)
+  else ({ s with buf := if c.delBuf then aerase sid s.buf else s.buf,
+                 req := if c.delReq then aerase sid s.req else s.req,
+                 closed := r.chan :: s.closed }, .ok s!"fire {k}")
+
 /-- the de-duplication of responses dereferences `Response` of the new and of the buffered ones -/
 def respDeref (cfg : Cfg) (cur : List Item) : Item → Bool
   | .resp _ none => !cfg.peerRespNil && cur.any (fun x => match x with | .resp _ _ => true | _ => false)
@@ -162,29 +186,29 @@ def handlePeerMsg (cfg : Cfg) (s : Sess) (sid : String) (it : Item) : Sess × Ou
       if (cur'.length : Int) = 0 then ({ s1 with alive := false }, .panic "dkg.handlePeerMsg|mapzero|sessionReq[sessionID].ctx")
       else (s1, .ok s!"buf {cur'.length}")
     | some r =>
-      if (cur'.length : Int) = r.num then fire s1 sid r cur'.length "dkg.handlePeerMsg|close|close(sessionReq[sessionID].reply)"
+      if (cur'.length : Int) = r.num then fireC cfg.peerClean s1 sid r cur'.length "dkg.handlePeerMsg|close|close(sessionReq[sessionID].reply)"
       else (s1, .ok s!"buf {cur'.length}")
 
-def handleRequest (s : Sess) (sid : String) (num : Int) : Sess × Out :=
+def handleRequest (cfg : Cfg) (s : Sess) (sid : String) (num : Int) : Sess × Out :=
   let r : Req := { num := num, chan := s.next }
   let s1 := { s with req := ainsert sid r s.req, next := s.next + 1 }
   let cur := (alookup sid s1.buf).getD []
-  if (cur.length : Int) = num then fire s1 sid r cur.length "dkg.handleRequest|close|close(req.reply)"
+  if (cur.length : Int) = num then fireC cfg.reqClean s1 sid r cur.length "dkg.handleRequest|close|close(req.reply)"
   else (s1, .ok s!"reg {cur.length}")
 
 /-- the once-a-minute sweep of `pdkg.Loop` (8d5de85): for every registered request whose session
 context is done, `close(req.reply)`, forget the registration and its buffer. `done` = the session ids
 whose context is done at that moment (Go ranges over the map; visiting the done ids one by one and
 looking their entry up closes the same set of channels). -/
-def expire (s : Sess) : List String → Nat → Sess × Out
+def expire (cfg : Cfg) (s : Sess) : List String → Nat → Sess × Out
   | [], k => (s, .ok s!"expired {k}")
   | sid :: rest, k =>
     match alookup sid s.req with
-    | none => expire s rest k
+    | none => expire cfg s rest k
     | some r =>
-      match fire s sid r 0 "dkg.pdkg.Loop|close|close(req.reply)" with
+      match fireC cfg.expClean s sid r 0 "dkg.pdkg.Loop|close|close(req.reply)" with
       | (s1, .panic site) => (s1, .panic site)
-      | (s1, _) => expire s1 rest (k + 1)
+      | (s1, _) => expire cfg s1 rest (k + 1)
 
 inductive SessEv where
   | msg (sid : String) (it : Item)
@@ -194,8 +218,8 @@ inductive SessEv where
 
 def sessStep (cfg : Cfg) (s : Sess) : SessEv → Sess × Out
   | .msg sid it => if s.alive then handlePeerMsg cfg s sid it else (s, .dropped)
-  | .req sid num => if s.alive then handleRequest s sid num else (s, .dropped)
-  | .expire done => if s.alive then expire s done 0 else (s, .dropped)
+  | .req sid num => if s.alive then handleRequest cfg s sid num else (s, .dropped)
+  | .expire done => if s.alive then expire cfg s done 0 else (s, .dropped)
 
 def sessRun (cfg : Cfg) : Sess → List SessEv → Sess × List Out
   | s, [] => (s, [])
